@@ -1026,10 +1026,14 @@ def mon_C10_behaviour(blocks):
             if sid is not None and g.alive.get(sid) and v in a.pre_store:
                 pending[r.tok[1]] = (v, sid, dict(g.data[sid]), g.user[sid], b.idx)
         if b.tok[0] == "req" and b.tok[1] in pending and not b.faulted:
+            a = b.ann
             v, sid, data, user, at = pending.pop(b.tok[1])
             if b.inp != v:
                 return
             d, why = verdict(b)
+            if d == "refuse" and why == "stale" and v in g.replaced and b.t - g.replaced[v][0] < a.cfg["sessionExpiry"] - gran(a.codec) - 1:
+                # a replaced-id record is as old as its replacement, whatever access time the record claims
+                d = "serve-ref"
             if d in ("serve", "serve-ref"):
                 if b.ret != "sess" or not b.ss:
                     out.append(Violation(b.idx, "after the crash at op %d the presented id no longer reaches the session: %s" % (at, b.ret)))
@@ -1137,9 +1141,12 @@ def mon_C12(blocks):
         N = a.cfg["maxCache"]
         pre, post = a.pre_cache, b.cache
         inserted = [x for x in post if x not in pre]
+        # a cache write: an insert, or cache.Set of a session that is already cached (it stamps the access time and saves)
+        updated = [x for x in post if x in pre and la(post[x]) == b.t and any(e[0] == "save" and _unq(e[1]) == x for e in b.evs)]
+        cache_write = bool(inserted) or (bool(updated) and k in ("logoutuser", "refresh", "h") and (k != "h" or b.tok[1] in ("login", "regen")))
         if N == 0 and inserted:
             out.append(Violation(b.idx, "MaxSessionCacheSize is 0 but %d session(s) were cached" % len(inserted)))
-        if N > 0 and inserted and len(post) > N:
+        if N > 0 and cache_write and len(post) > N:
             out.append(Violation(b.idx, "%d sessions cached with MaxSessionCacheSize %d" % (len(post), N)))
         if len(post) > len(pre) and not inserted:
             out.append(Violation(b.idx, "cache grew without an insert"))
@@ -1183,7 +1190,7 @@ def mon_C12(blocks):
                     out.append(Violation(b.idx, "session %s was evicted although only %d of %d places are taken" % (x, len(post), N)))
                     break
         # idle sessions are dropped at the next cache write
-        if inserted:
+        if cache_write:
             ce = a.cfg["cacheExpiry"]
             for y in post:
                 if b.t - la(post[y]) > ce and y in pre and la(post[y]) == la(pre[y]):
